@@ -6,6 +6,7 @@ import (
 	"math/rand"
 	"net"
 	"strconv"
+	"sync"
 	"time"
 
 	"verif/refcodec"
@@ -90,7 +91,13 @@ func c10ServerCase(c *Ctx) *Result {
 	hostIP := "10.0.8.8"
 	am, _ := env.NewClient(0, hostIP)
 	alicePlan := &SessPlan{Idx: 0, CloseBy: -1, W: [2][]int{{300, 2000}, {500}}, R: [2][]int{{4096}, {4096}}, Key: [2]uint64{key2(c.Seed, c.Idx, 0, 0, 10), key2(c.Seed, c.Idx, 0, 1, 10)}}
-	ars, _ := runTransfer(env, am, []*SessPlan{alicePlan}, XferOpt{Watchdog: 60 * time.Second})
+	var aliceSrv net.Conn
+	var aliceMu sync.Mutex
+	ars, _ := runTransfer(env, am, []*SessPlan{alicePlan}, XferOpt{Watchdog: 60 * time.Second, OnAccepted: func(_ int, sc net.Conn) {
+		aliceMu.Lock()
+		aliceSrv = sc
+		aliceMu.Unlock()
+	}})
 	var aliceSID uint32
 	if v, err := strconv.ParseUint(ars[0].ID, 10, 32); err == nil {
 		aliceSID = uint32(v)
@@ -206,9 +213,20 @@ func c10ServerCase(c *Ctx) *Result {
 	}
 	res.Obs["canary_completed"] = 1
 	// alice's live session, whose id bob abused, must still work (other users' sessions keep working)
-	if ars[0].Accepted {
-		// nothing more is required than that the process is alive; record only
+	aliceMu.Lock()
+	asc := aliceSrv
+	aliceMu.Unlock()
+	if ars[0].Accepted && asc != nil && ars[0].WErr[0] == "" && ars[0].WErr[1] == "" && ars[0].RErr[0] == "" && ars[0].RErr[1] == "" {
+		// the server application answers alice once more over the session it
+		// still holds; a session bob managed to close or break refuses the write
 		res.Obs["victim_session_present"] = 1
+		asc.SetWriteDeadline(time.Now().Add(10 * time.Second))
+		if _, err := asc.Write([]byte("still there?")); err != nil {
+			res.Verdict, res.Sig = Violated, "C10|"+tr+"|server|other-users-session-ended-by-hostile-peer"
+			res.Detail = fmt.Sprintf("alice's session %d had completed its transfer and stayed open; after bob's validly authenticated hostile traffic (which names that session id) the server application's next write on it fails: %v", aliceSID, err)
+			return res
+		}
+		res.Obs["victim_session_still_writable"] = 1
 	}
 	res.Verdict = Held
 	return res
